@@ -66,7 +66,7 @@ class C10Plan(Plan):
         "weights": {
             "at": 5, "at_num": 1, "mk_partial": 4, "mk_derivative": 1.5, "mk_differential": 3,
             "mk_located": 2, "pat": 4, "dat": 2, "comp": 3, "compat": 2, "lcomp": 1.5, "asx": 5,
-            "build": 4, "norm": 4, "eq": 1.5, "hash": 0.7, "repr": 0.7,
+            "build": 4, "norm": 4, "eq": 1.5, "hash": 0.7, "repr": 0.7, "peq": 0.7,
         },
     }
 
